@@ -112,45 +112,37 @@ theorem whole_pure (k : String) (hk : k ∈ wholeProved) (a : Option Val)
     List.mem_nil_iff, or_false] at hk
   rcases hk with rfl | rfl | rfl | rfl | rfl | rfl | rfl | rfl | rfl | rfl | rfl | rfl | hk
   -- $abs
-  · have hb : isBoolO a = false := by
-      by_contra hc; simp [strictReasons, arithOps, hc] at hr
-    simp only [applyStrict, arithOps, List.contains_cons, List.contains_nil] at hs
+  · simp only [applyStrict, arithOps, List.contains_cons, List.contains_nil] at hs
     simp at hs
     cases h1 : arith1 "$abs" a with
     | error e => simp [h1, Except.map] at hs
     | ok w =>
       simp [h1, Except.map] at hs; subst hs
-      simp [applyWhole, unaryArithOps, unary_pure "$abs" (Or.inl rfl) a hb w h1, Except.map]
+      simp [applyWhole, unaryArithOps, unary_pure "$abs" (Or.inl rfl) a w h1, Except.map]
   -- $ceil
-  · have hb : isBoolO a = false := by
-      by_contra hc; simp [strictReasons, arithOps, hc] at hr
-    simp [applyStrict] at hs
+  · simp [applyStrict] at hs
     cases h1 : arith1 "$ceil" a with
     | error e => simp [h1, Except.map] at hs
     | ok w =>
       simp [h1, Except.map] at hs; subst hs
       simp [applyWhole, unaryArithOps,
-        unary_pure "$ceil" (Or.inr (Or.inl rfl)) a hb w h1, Except.map]
+        unary_pure "$ceil" (Or.inr (Or.inl rfl)) a w h1, Except.map]
   -- $floor
-  · have hb : isBoolO a = false := by
-      by_contra hc; simp [strictReasons, arithOps, hc] at hr
-    simp [applyStrict] at hs
+  · simp [applyStrict] at hs
     cases h1 : arith1 "$floor" a with
     | error e => simp [h1, Except.map] at hs
     | ok w =>
       simp [h1, Except.map] at hs; subst hs
       simp [applyWhole, unaryArithOps,
-        unary_pure "$floor" (Or.inr (Or.inr (Or.inl rfl))) a hb w h1, Except.map]
+        unary_pure "$floor" (Or.inr (Or.inr (Or.inl rfl))) a w h1, Except.map]
   -- $trunc
-  · have hb : isBoolO a = false := by
-      by_contra hc; simp [strictReasons, arithOps, hc] at hr
-    simp [applyStrict] at hs
+  · simp [applyStrict] at hs
     cases h1 : arith1 "$trunc" a with
     | error e => simp [h1, Except.map] at hs
     | ok w =>
       simp [h1, Except.map] at hs; subst hs
       simp [applyWhole, unaryArithOps,
-        unary_pure "$trunc" (Or.inr (Or.inr (Or.inr rfl))) a hb w h1, Except.map]
+        unary_pure "$trunc" (Or.inr (Or.inr (Or.inr rfl))) a w h1, Except.map]
   -- $not
   · simp [applyStrict] at hs
     subst hs
